@@ -107,9 +107,23 @@ Simples ==
         ReturnS(Bin("==", A, S), TRUE), ReturnS(Bool(TRUE), FALSE), ReturnS(Ident("restart"), TRUE), ReturnS(Ident("error"), TRUE)}
   \cup {IncludeS("mod", TRUE), IncludeS("mod", FALSE)}
   \cup {Block(<<>>), Block(<<Simple("esi")>>), Block(<<Block(<<Simple("restart")>>), Simple("esi")>>)}
+ElifKws == {"else if", "elseif", "elsif"}
+\* every place where a statement or declaration holds an expression, filled from the expression grammar (not only
+\* with an atom): juxtaposition, +, infix, group, if(), call, prefix ! and -, a three-level chain, a long string.
+\* (A return value or an error argument after an identifier code may not START with "(": that spells another tree.)
+SlotExprs == {Bin("juxt", S, A), Bin("+", S, A), Bin("==", A, S), Group(Bin("juxt", S, A)), IfX(A, S, S), CallX("f", <<A>>), Not(A),
+              Bin("&&", A, Bin("~", A, Bin("juxt", S, B))), LongString("ls"), Prefix("-", Int("1"))}
+NoParenStart == {e \in SlotExprs : e.k # "group"}
+SlotStmts ==
+  {ErrorS(Int("503"), e) : e \in SlotExprs} \cup {ErrorS(Ident("var.code"), e) : e \in NoParenStart}
+  \cup {ReturnS(e, FALSE) : e \in NoParenStart} \cup {ReturnS(e, TRUE) : e \in SlotExprs}
+  \cup {CallS("f", <<e, A, e>>, TRUE) : e \in SlotExprs} \cup {FCallS("std.f", <<e>>) : e \in SlotExprs}
+  \cup {DeclareS("var.v", "STRING", e) : e \in SlotExprs} \cup {AddS("resp.http.X", "=", e) : e \in SlotExprs}
+  \cup {ValueS(k, e) : k \in {"log", "synthetic", "synthetic64"}, e \in SlotExprs}
+  \cup {IfS(A, Block(<<>>), <<Elif(kw, e, Block(<<Simple("esi")>>))>>, None) : kw \in ElifKws, e \in SlotExprs}
+  \cup {SwitchS(Bin("juxt", S, String("t")), <<CaseC([k |-> "test", op |-> "==", right |-> String("a")], <<Simple("break")>>)>>)}
 Esi == Simple("esi")
 Bodies == {Block(<<>>), Block(<<Esi>>), Block(<<SetS("req.http.X", "=", S), Simple("restart")>>)}
-ElifKws == {"else if", "elseif", "elsif"}
 Chains(n) == \* all keyword spellings for a chain of n else-ifs
   IF n = 0 THEN {<<>>}
   ELSE IF n = 1 THEN {<<Elif(k1, B, Block(<<Esi>>))>> : k1 \in ElifKws}
@@ -161,7 +175,7 @@ Switches == {SwitchS(c, cs) : c \in {A, CallX("f", <<A>>), Bool(TRUE), String("s
 Inners == {IfS(B, Block(<<Esi>>), <<>>, Block(<<>>)), SwitchS(A, <<CaseC(Eq("a"), <<Brk>>)>>), Block(<<LabelS("l:"), GotoS("l")>>)}
 Nested == {IfS(A, Block(<<inner>>), <<Elif("elsif", B, Block(<<inner>>))>>, Block(<<inner, Esi>>)) : inner \in Inners}
           \cup {SwitchS(A, <<CaseC(Eq("a"), <<inner, Ft>>), CaseC(None, <<inner, inner, Brk>>)>>) : inner \in Inners}
-Stmts == Simples \cup Ifs0 \cup Switches \cup Nested
+Stmts == Simples \cup Ifs0 \cup Switches \cup Nested \cup SlotStmts
 InSub(ss) == Vcl(<<SubD("vcl_recv", <<>>, None, Block(ss))>>)
 StmtCases == {<<"stmt", st>> : st \in Stmts}
 \* source order: every ordered pair of a spread of statement kinds, in one block
@@ -198,6 +212,9 @@ Decls ==
   \cup {SubD("fn", ps, rt, Block(<<ReturnS(Bin("==", Ident("var.p"), S), FALSE)>>)) :
           ps \in {<<>>, <<Param("STRING", "var.p")>>, <<Param("STRING", "var.p"), Param("INTEGER", "var.q")>>},
           rt \in {None, Ident("BOOL"), Ident("STRING")}}
+  \cup {BackendD("b", <<Prop("host", e), P3>>) : e \in SlotExprs} \cup {DirectorD("d", "random", <<Prop("quorum", e)>>) : e \in SlotExprs}
+  \cup {BackendD("b", <<Prop("probe", Probe(<<Prop("request", e)>>))>>) : e \in SlotExprs}
+  \cup {DirectorD("d", "random", <<BackendObj(<<Prop("backend", e), Prop("weight", Int("1"))>>)>>) : e \in SlotExprs}
   \* every list production with 0, 1, 2 elements: the parameter list written out although it is empty
   \cup {SubDP(n, <<>>, rt, b, TRUE) : n \in {"fn", "vcl_recv"}, rt \in {None, Ident("BOOL"), Ident("STRING")},
                                       b \in {Block(<<>>), Block(<<ReturnS(Bool(TRUE), FALSE)>>), Block(<<Esi, CallS("fn", <<>>, TRUE)>>)}}
